@@ -293,7 +293,27 @@ def P5(ctx):
 WITNESSES = ['C06ModelNeedsFn', 'C06ModelNeedsSendSync']
 
 
+def P6(ctx):
+    """Scheduler::switch always suspends the coroutine: after Execution::schedule picked another thread, the current one must not
+    keep running (no early return, e.g. while panicking) - otherwise a blocking operation in a destructor finds its wait
+    condition unmet and panics a second time during unwinding."""
+    prog = ctx.prog
+    fk = "rt::scheduler::Scheduler::switch"
+    fn = need_fn(ctx, "P6", fk)
+    if fn is None:
+        return
+    inst = prog.ident(fk)
+    body = fn.body
+    polls = [b for (b, t, c) in prog.sites(inst) if callee_path(t).endswith("Future::poll") or "yield_with" in callee_path(t)]
+    if polls and every_path_passes(body, polls):
+        ctx.ok("P6", fk, "the suspending poll is on every path", [site_str(prog, fk, polls[0])])
+    else:
+        ctx.bad("P6", fk, "Scheduler::switch can return without suspending the coroutine: the thread keeps running after the scheduler "
+                "chose another one", fn.loc(), detail="no-suspend")
+
+
 def run(ctx):
+    P6(ctx)
     P1(ctx)
     P2_wrapper(ctx)
     P2(ctx)
